@@ -36,7 +36,7 @@ TIERS = {
     "quick": {"examples": 24000, "budget_s": 110, "time_families": 3},
     "thorough": {"examples": 500000, "budget_s": 2400, "time_families": 9, "atheris_runs": 200000},
 }
-PARTS = ["search", "fixed_part"]
+PARTS = ["search", "fixed_part", "pairs_part"]
 
 _TOK = re.compile(r'"(?:\\"|[^"])*"|\'(?:\\\'|[^\'])*\'|#[^\n]*|/\*.*?\*/|\s+|[A-Za-z0-9_.:\-]+|.', re.S)
 
@@ -312,6 +312,37 @@ def atheris_campaign(acc, shard, runs):
                                    "search": "atheris", "shard": shard, "round": 0, "seed": env.verif_seed(), "tier": "thorough"})
     finally:
         shutil.rmtree(work, ignore_errors=True)
+
+
+def pairs_part(acc: Acc, tier, shard, nshards):
+    """Exhaustive: every ordered pair of vocabulary tokens, alone and as the first two tokens inside the block that
+    can hold the most keywords (MAP ... END / STYLE ... END), through loads with default arguments."""
+    voc = [t for t in soup_vocab() if "\n" not in t and t.strip()]
+    if tier == "quick":
+        # the keyword / block / literal part of the vocabulary x everything (about 10^5 pairs)
+        firsts = [t for t in voc if t.isupper() and t.isalpha()] + ["END", "SYMBOL", "STYLE", "GRID", "NAME", "(", "[", "{", "/", '"', "`", "%", "#", "/*"]
+        firsts = list(dict.fromkeys(firsts))
+    else:
+        firsts = voc
+    i = 0
+    for a in firsts:
+        i += 1
+        if i % nshards != shard:
+            continue
+        if acc.over_budget():
+            return
+        for b in voc:
+            for text in (a + " " + b, "MAP " + a + " " + b + " END", "STYLE\n" + a + "\n" + b):
+                label, msg = classify(text, expand=False)
+                acc.evaluations += 1
+                acc.exhaustive_cases += 1
+                if msg and not any(v["bucket"] == label for v in acc.violations):
+                    acc.violations.append({"bucket": label, "message": msg + f" for input {text!r:.120}", "case": {"text": text, "expand": False},
+                                           "search": "pairs", "shard": shard, "round": 0, "seed": env.verif_seed(), "tier": tier})
+        acc.nontrivial.add(env.fp(["pairs_first", a]))
+        acc.cls("pairs:first_tokens")
+    if len(acc.samples) < 3:
+        acc.samples.append({"family": "token pairs", "example": "MAP SYMBOL GRID END", "vocabulary": len(voc)})
 
 
 # ------------------------------------------------------------------ fixed family + timing
